@@ -172,6 +172,16 @@ Theorem C14_bp_entry_short : forall k v, List.length k = 39%nat -> (Z.abs v < 25
 Proof. exact bp_entry_short. Qed.
 Print Assumptions C14_bp_entry_short.
 
+(** chain.executeTx dispatches on the transaction type; a type without a case leaves txFee nil and
+    [bs.BpReward.Add(&bs.BpReward, txFee)] dereferences it (a Panic outcome of [exec_gov], excluded
+    by Tx.Validate in C14_exec_total).  The case lists of both switches are regenerated from the
+    source on every run: every admitted type has a case, and the model's lists are the source's. *)
+Theorem C14_dispatch_complete :
+  dispatch_complete Gen.PanicSites.validate_types Gen.PanicSites.exec_dispatch_types
+                    Model.validate_types Model.exec_dispatch_types = true.
+Proof. vm_compute. reflexivity. Qed.
+Print Assumptions C14_dispatch_complete.
+
 (** Every index / slice / single-value assertion / explicit panic found by gen_panicsites in the
     current source tree is one the model accounts for (Sites.model_sites). *)
 Theorem C14_sites_covered : sites_covered Gen.PanicSites.sites = true.
